@@ -196,12 +196,12 @@ def langOnly (ts : List Tok) : Prop := ∀ t ∈ ts, isLang t = true ∧ t.txt =
 
 def SpecInit (fuel : Nat) : Prop :=
   ∀ (name : Str) (md : ModuleDef) (builtin : Bool) (options : List KeyVal) (position : Nat) (st : PState),
-    G T nroot st → (∀ m ∈ md.macros ++ md.envs, macroToksOk T m = true) →
+    G T nroot st → (∀ m ∈ md.macros ++ md.envs, macroToksOk T m = true) → (∀ e ∈ md.envs, envOk T e = true) →
     Post (initPackage T fuel name md builtin options position st) (fun r st' => Good T nroot st st' ∧ langOnly r)
 
 def SpecModParams (fuel : Nat) : Prop :=
   ∀ (md : ModuleDef) (options : List KeyVal) (position : Nat) (st : PState),
-    G T nroot st → (∀ m ∈ md.macros ++ md.envs, macroToksOk T m = true) →
+    G T nroot st → (∀ m ∈ md.macros ++ md.envs, macroToksOk T m = true) → (∀ e ∈ md.envs, envOk T e = true) →
     Post (modifyParameters T fuel md options position st) (fun r st' => Good T nroot st st' ∧ langOnly r)
 
 def kvOk (n : Nat) (kvs : List (Str × Option (List Tok))) : Prop :=
